@@ -15,7 +15,7 @@
 (* graph returns Python's values.                                                                *)
 (* Deviations (DESIGN 2.5): "loop_livein_drops_liveout" (fix-point forgets the zero-trip path),  *)
 (* "for_bound_not_live" (range(n) operand not counted as a use by liveness).                     *)
-EXTENDS Integers, Sequences, FiniteSets, TLC
+EXTENDS Integers, Sequences, FiniteSets, TLC, Json
 
 CONSTANTS Deviations, MaxNodes, MinNodes, MaxDepth, MaxBlock, Rich,
           Kinds          \* which control-flow statements a derivation may open: subset of {"if", "for", "while", "brk"}
@@ -112,7 +112,6 @@ FixFor(s, out, prev, cur, devs) ==
   IF cur = prev THEN cur
   ELSE LET nxt == (LiveB(s.t, cur, devs) \ {s.v})
                   \cup (IF "loop_livein_drops_liveout" \in devs THEN {} ELSE out)
-                  \cup (IF "for_bound_not_live" \in devs THEN {} ELSE UsedE(s.e))
        IN FixFor(s, out, cur, nxt, devs)
 FixWhile(s, out, prev, cur, devs) ==
   IF cur = prev THEN cur
@@ -122,11 +121,12 @@ FixWhile(s, out, prev, cur, devs) ==
 LiveS(s, out, devs) ==
   CASE s.k = "asg" -> (out \ {s.v}) \cup UsedE(s.e)
     [] s.k = "if" -> LiveB(s.t, out, devs) \cup LiveB(s.f, out, devs) \cup {s.v}
-    [] s.k = "for" -> FixFor(s, out, {"__none__"}, out, devs)
+    [] s.k = "for" -> FixFor(s, out, {"__none__"}, out, devs)       \* range(bound) is evaluated once, before the loop
+                      \cup (IF "for_bound_not_live" \in devs THEN {} ELSE UsedE(s.e))
     [] s.k = "while" -> FixWhile(s, out, {"__none__"}, out \cup {s.v}, devs)
     [] s.k = "brk" -> out
 \* the live-out the analysis records for the body of a loop = the fix-point value (last visit)
-BodyOut(s, out, devs) == LiveS(s, out, devs)
+BodyOut(s, out, devs) == IF s.k = "for" THEN FixFor(s, out, {"__none__"}, out, devs) ELSE LiveS(s, out, devs)
 
 \* exposed_uses(block)
 RECURSIVE ExpS(_, _), ExpB(_, _)
@@ -174,6 +174,15 @@ TransS(s, B, top, out, devs) ==
               /\ (s.k = "while" => s.v \in rb[2])         \* condition must be (re)bound in the body scope
               /\ \A j \in 1..Len(s.t) : s.t[j].k = "brk" => j = Len(s.t)>>
     [] s.k = "brk" -> <<B, top, s.v \in top>>             \* condition variable must be in the current scope
+
+\* the selections the converter makes, in pre-order: one entry per If (its outputs) and per Loop (its
+\* carried state) - compared with the structure of the graph the real converter emits
+RECURSIVE SelS(_, _, _), SelB(_, _, _)
+SelB(b, out, devs) == IF b = <<>> THEN <<>> ELSE SelS(Head(b), LiveB(Tail(b), out, devs), devs) \o SelB(Tail(b), out, devs)
+SelS(s, out, devs) ==
+  CASE s.k = "if" -> <<[k |-> "If", vs |-> IfOutputs(s, out)]>> \o SelB(s.t, out, devs) \o SelB(s.f, out, devs)
+    [] s.k \in {"for", "while"} -> <<[k |-> "Loop", vs |-> LoopState(s, out)]>> \o SelB(s.t, BodyOut(s, out, devs), devs)
+    [] OTHER -> <<>>
 
 (* what the emitted graph computes.  benv: binding environment (value of each visible name)      *)
 Restrict(envIn, envOut, sel) == [v \in EnvV |-> IF v \in sel \/ v = "#" THEN envOut[v] ELSE envIn[v]]
@@ -283,6 +292,7 @@ Translate(p, r, devs) ==
       tr == TransB(p, Params, Params, out, devs)
       ok == tr[3] /\ out \subseteq tr[1]
   IN [refused |-> ~ok,
+      sel |-> IF ok THEN SelB(p, out, devs) ELSE <<>>,
       res |-> [k \in 1..Len(InSeq) |->
                  LET e0 == Env0(InSeq[k][1], InSeq[k][2])
                  IN [a |-> InSeq[k][1], n |-> InSeq[k][2],
@@ -294,13 +304,16 @@ Finish == /\ stage = "build" /\ Len(stack) = 1 /\ Top.blk # <<>> /\ nodes >= Min
                /\ LET impl == Translate(Top.blk, r, Deviations)
                       ideal == Translate(Top.blk, r, {})
                   IN /\ refused' = impl.refused /\ res' = impl.res
-                     /\ info' = [idealRefused |-> ideal.refused, idealRes |-> ideal.res,
+                     /\ info' = [idealRefused |-> ideal.refused, idealRes |-> ideal.res, sel |-> impl.sel,
                                  why |-> {d \in Deviations : Translate(Top.blk, r, Deviations \ {d}) # impl}]
           /\ stage' = "done"
           /\ UNCHANGED <<stack, nodes>>
 Next == AddAsg \/ OpenIf \/ Else \/ OpenFor \/ OpenWhile \/ AddBreak \/ Close \/ Finish
 Spec == Init /\ [][Next]_vars
 
+\* one JSON line per derived program (read by the conformance harness)
+Emit == stage = "done" => PrintT(<<"CASE", ToJson([prog |-> prog, ret |-> ret, refused |-> refused, res |-> res,
+                                                    why |-> info.why, sel |-> info.sel])>>)
 \* C01 at design level: refused, or faithful wherever Python is defined
 FaithfulOf(rf, rs) == rf \/ \A k \in 1..Len(rs) : rs[k].py[1] = "ok" => rs[k].gr = rs[k].py
 DesignFaithful == stage = "done" => FaithfulOf(info.idealRefused, info.idealRes)
